@@ -319,6 +319,16 @@ def impl_header(span):
             seg[0] = seg[0][c1 - 1:]
             hdr = ' '.join(x.strip() for x in seg)
             hdr = re.sub(r'\s+', ' ', hdr)
+            if not re.match(r'^(?:unsafe )?impl\b', hdr):
+                # #[derive(Trait)]: the span covers the trait name inside the attribute; the type is the next struct/enum
+                tr = re.sub(r'[^\w:]', '', hdr).split('::')[-1]
+                ty = None
+                for ln in lines[l1 - 1:l1 + 40]:
+                    mm = re.search(r'\b(?:struct|enum|union)\s+(\w+)', ln)
+                    if mm:
+                        ty = mm.group(1); break
+                _IMPL_CACHE[span] = (ty, tr or None)
+                return _IMPL_CACHE[span]
             hdr = re.sub(r'^(?:unsafe )?impl', '', hdr).strip()
             if hdr.startswith('<'):
                 d = 0
@@ -662,6 +672,12 @@ class Program:
         if len(cands) == 1:
             return cands[0]
         if len(cands) > 1:
+            # several impls with the same self type name (e.g. groups::Pagination / welcomes::Pagination): use the module path of the call site
+            um = [m for m in mods if m not in ('crate', 'self', 'super') and m not in [CRATES[k]['extern'] for k in CRATES]]
+            if um:
+                narrowed = [f for f in cands if self.meta(f)[0][-len(um):] == um]
+                if len(narrowed) == 1:
+                    return narrowed[0]
             same = [f for f in cands if f.crate == cur_crate]
             if len(same) == 1:
                 return same[0]
